@@ -719,7 +719,11 @@ func (s *session) unmarshal() {
 		s.violate("panic", "panic:Unmarshal", "%s panicked: %s%s", desc, gotPan, wantPan)
 		return
 	}
-	if gotFail != wantFail || gotOut != wantOut {
+	if i := strings.Index(gotOut, "FIELD-MISMATCH: "); i >= 0 {
+		// independent of anything cached in the process: the field does not hold
+		// the result of its own tag query
+		s.violate("I2-history-dependence", "unmarshal-field-differs-from-its-tag-query", "%s: %s (an earlier Unmarshal of another type influenced this one?)", desc, gotOut[i+len("FIELD-MISMATCH: "):])
+	} else if gotFail != wantFail || gotOut != wantOut {
 		s.violate("I2-history-dependence", "history-dependence:Unmarshal", "%s filled %s (fail=%v) in this history but %s (fail=%v) in a fresh world", desc, gotOut, gotFail, wantOut, wantFail)
 	}
 	s.checkI1(desc)
